@@ -128,6 +128,11 @@ type database struct {
 	monitors      map[string]*Monitor
 	monitorsMutex sync.Mutex
 
+	// last transaction ids reported by update3 notifications, per monitor,
+	// not yet copied into monitors (see syncLastTransactionIDs)
+	lastTxnIDs   map[string]string
+	lastTxnMutex sync.Mutex
+
 	// tracks any outstanding updates while waiting for a monitor response
 	deferUpdates    bool
 	deferredUpdates []*bufferedUpdate
@@ -286,6 +291,7 @@ func (o *ovsdbClient) connect(ctx context.Context, reconnect bool) error {
 		for dbName, db := range o.databases {
 			db.monitorsMutex.Lock()
 			defer db.monitorsMutex.Unlock()
+			db.syncLastTransactionIDs()
 
 			// Purge entire cache if no monitors exist to update dynamically
 			if len(db.monitors) == 0 {
@@ -748,13 +754,32 @@ func (o *ovsdbClient) update3(params []json.RawMessage, reply *[]interface{}) er
 	db.cacheMutex.RUnlock()
 
 	if err == nil {
-		db.monitorsMutex.Lock()
-		mon := db.monitors[cookie.ID]
-		mon.LastTransactionID = lastTransactionID
-		db.monitorsMutex.Unlock()
+		// Not under monitorsMutex: Monitor() holds that lock while it waits
+		// for a reply which only the read loop running this handler can
+		// deliver. The id is copied into the monitor the next time
+		// monitorsMutex is held.
+		db.lastTxnMutex.Lock()
+		if db.lastTxnIDs == nil {
+			db.lastTxnIDs = make(map[string]string)
+		}
+		db.lastTxnIDs[cookie.ID] = lastTransactionID
+		db.lastTxnMutex.Unlock()
 	}
 
 	return err
+}
+
+// syncLastTransactionIDs copies the transaction ids reported by update3
+// notifications into the monitors. Must be called with monitorsMutex held.
+func (db *database) syncLastTransactionIDs() {
+	db.lastTxnMutex.Lock()
+	defer db.lastTxnMutex.Unlock()
+	for id, txnID := range db.lastTxnIDs {
+		if mon, ok := db.monitors[id]; ok {
+			mon.LastTransactionID = txnID
+		}
+	}
+	db.lastTxnIDs = nil
 }
 
 // getSchema returns the schema in use for the provided database name
@@ -1241,6 +1266,7 @@ func (o *ovsdbClient) handleClientErrors(stopCh <-chan struct{}) {
 				// need to reset the last txn ID
 				for _, db := range o.databases {
 					db.monitorsMutex.Lock()
+					db.syncLastTransactionIDs()
 					for _, mon := range db.monitors {
 						mon.LastTransactionID = emptyUUID
 					}
